@@ -187,6 +187,26 @@ class Model(SOCModel):
                                                         affine_aux[s],
                                                         1, affine_in[s])
                             more_exp.append(exp_cone_constr)
+                    elif constr.xtype == 'X' and constr.sum_axis is not False:
+                        affine_out = constr.affine_out * (1/constr.multiplier)
+                        aux_var = self.dvar(constr.affine_in.shape, aux=True)
+                        aux_sum = aux_var.to_affine().sum(axis=constr.sum_axis)
+                        self.aux_constr.append(aux_sum + affine_out <= 0)
+                        exprs_list = rso_broadcast(constr.affine_in, aux_var)
+                        for exprs in exprs_list:
+                            exp_cone_constr = ExpConstr(constr.model,
+                                                        exprs[0], exprs[1], 1)
+                            more_exp.append(exp_cone_constr)
+                    elif constr.xtype == 'L' and constr.sum_axis is not False:
+                        affine_out = constr.affine_out * (1/constr.multiplier)
+                        aux_var = self.dvar(constr.affine_in.shape, aux=True)
+                        aux_sum = aux_var.to_affine().sum(axis=constr.sum_axis)
+                        self.aux_constr.append(affine_out - aux_sum <= 0)
+                        exprs_list = rso_broadcast(aux_var, constr.affine_in)
+                        for exprs in exprs_list:
+                            exp_cone_constr = ExpConstr(constr.model,
+                                                        exprs[0], exprs[1], 1)
+                            more_exp.append(exp_cone_constr)
                     elif constr.xtype == 'X':
                         affine_out = constr.affine_out * (1/constr.multiplier)
                         exprs_list = rso_broadcast(constr.affine_in, affine_out)
